@@ -1548,3 +1548,190 @@ theorem mem_key_inj {l : List Blk} (hn : (keys l).Nodup) {x y : Blk} (hx : x ∈
     · exact ih hn.2 hx' hy'
 
 end Edzed.Persist
+
+namespace Edzed.Persist
+
+/-! ## start-up with events between the blocks -/
+
+theorem load_congr {b : Blk} {s1 s2 : Storage} (h : s1.get? b.key = s2.get? b.key) (ts : Option Time)
+    (cal : Val → Option Bool) (now : Time) : load b s1 ts cal now = load b s2 ts cal now := by
+  unfold load; rw [h]
+
+theorem keys_inj {l : List Blk} (hn : (keys l).Nodup) {i j : Nat} {a b : Blk}
+    (hi : l[i]? = some a) (hj : l[j]? = some b) (hk : a.key = b.key) : i = j := by
+  induction l generalizing i j with
+  | nil => simp at hi
+  | cons x r ih =>
+    simp only [keys, List.map_cons, List.nodup_cons] at hn
+    cases i <;> cases j
+    · rfl
+    · simp only [List.getElem?_cons_zero, Option.some.injEq, List.getElem?_cons_succ] at hi hj
+      subst hi
+      exact absurd (hk ▸ List.mem_map_of_mem (List.mem_of_getElem? hj)) hn.1
+    · simp only [List.getElem?_cons_zero, Option.some.injEq, List.getElem?_cons_succ] at hi hj
+      subst hj
+      exact absurd (hk ▸ List.mem_map_of_mem (List.mem_of_getElem? hi)) hn.1
+    · simp only [List.getElem?_cons_succ] at hi hj
+      rw [ih hn.2 hi hj]
+
+theorem syncSave_ne (s : Storage) (b : Blk) {k : String} (h : k ≠ b.key) : (syncSave s b).get? k = s.get? k := by
+  unfold syncSave; split
+  · exact saveBlk_ne s b h
+  · rfl
+
+/-- the repair: an event that leaves the block uninitialised does not touch the storage -/
+theorem syncSave_uninit (s : Storage) (b : Blk) (h : b.dyn.inited = false) : syncSave s b = s := by
+  simp [syncSave, h]
+
+/-- invariant of the start-up relative to the blocks `bs0` and the storage `st0` it began with: a block that
+    has not been touched yet is as it was and so is its storage entry; a block that had its step 1 was
+    restored exactly when its ORIGINAL entry was valid -/
+structure IInv (ts : Option Time) (cal : Val → Option Bool) (now : Time) (bs0 : List Blk) (st0 : Storage)
+    (S : IState) : Prop where
+  keys : keys S.blocks = keys bs0
+  untouched : ∀ (j : Nat) (b : Blk), S.blocks[j]? = some b → b.steps = 0 →
+    bs0[j]? = some b ∧ S.store.get? b.key = st0.get? b.key
+  touched : ∀ (j : Nat) (b : Blk), S.blocks[j]? = some b → b.steps ≠ 0 →
+    ∃ b0, bs0[j]? = some b0 ∧ b.key = b0.key ∧ (b.restored = true ↔ (load b0 st0 ts cal now).isSome = true)
+
+variable {ts : Option Time} {cal : Val → Option Bool} {now : Time} {bs0 : List Blk} {st0 : Storage}
+
+theorem iinv_update (hn : (keys bs0).Nodup) {S : IState} (hI : IInv ts cal now bs0 st0 S) {j : Nat} {b : Blk}
+    (hb : S.blocks[j]? = some b) (b' : Blk) (hk : b'.key = b.key) (hs : b'.steps ≠ 0)
+    (hr : ∃ b0, bs0[j]? = some b0 ∧ b.key = b0.key ∧ (b'.restored = true ↔ (load b0 st0 ts cal now).isSome = true))
+    (store' : Storage) (hst : ∀ k, k ≠ b.key → store'.get? k = S.store.get? k) (ok' : Bool) :
+    IInv ts cal now bs0 st0 { blocks := S.blocks.set j b', store := store', ok := ok' } := by
+  have hlen : j < S.blocks.length := (List.getElem?_eq_some_iff.mp hb).1
+  have hnS : (keys S.blocks).Nodup := by rw [hI.keys]; exact hn
+  refine ⟨by simp only; rw [keys_set hb hk]; exact hI.keys, ?_, ?_⟩
+  · intro i b1 hi hs1
+    simp only [List.getElem?_set] at hi
+    split at hi
+    · next hij => simp only [hlen, if_true, Option.some.injEq] at hi; subst hi; exact absurd hs1 hs
+    · next hij =>
+      obtain ⟨h1, h2⟩ := hI.untouched i b1 hi hs1
+      refine ⟨h1, ?_⟩
+      have hne : b1.key ≠ b.key := fun h => hij (keys_inj hnS hb hi h.symm)
+      simp only
+      rw [hst _ hne]; exact h2
+  · intro i b1 hi hs1
+    simp only [List.getElem?_set] at hi
+    split at hi
+    · next hij =>
+      simp only [hlen, if_true, Option.some.injEq] at hi; subst hi; subst hij
+      obtain ⟨b0, h1, h2, h3⟩ := hr
+      exact ⟨b0, h1, hk.trans h2, h3⟩
+    · exact hI.touched i b1 hi hs1
+
+theorem iinv_ok (S : IState) (hI : IInv ts cal now bs0 st0 S) (ok' : Bool) :
+    IInv ts cal now bs0 st0 { S with ok := ok' } := ⟨hI.keys, hI.untouched, hI.touched⟩
+
+theorem iinv_init1 (hn : (keys bs0).Nodup) (hf : ∀ b ∈ bs0, b.restored = false) {S : IState} (hI : IInv ts cal now bs0 st0 S) (j : Nat) :
+    IInv ts cal now bs0 st0 (init1 ts cal now S j) := by
+  unfold init1
+  split
+  · exact hI
+  · next b hb =>
+    split
+    · exact hI
+    · next hs =>
+      simp only [bne_iff_ne, ne_eq, Decidable.not_not] at hs
+      obtain ⟨h1, h2⟩ := hI.untouched j b hb hs
+      have hl : load b S.store ts cal now = load b st0 ts cal now := load_congr h2 ts cal now
+      split
+      · next d hd =>
+        exact iinv_update hn hI hb { b with dyn := d, restored := true, steps := 1 } rfl (by simp)
+          ⟨b, h1, rfl, by simp [← hl, hd]⟩ S.store (fun _ _ => rfl) S.ok
+      · next hd =>
+        have hr0 : b.restored = false := hf b (List.mem_of_getElem? h1)
+        exact iinv_update hn hI hb { b with steps := 1 } rfl (by simp)
+          ⟨b, h1, rfl, by simp [← hl, hd, hr0]⟩ S.store (fun _ _ => rfl) S.ok
+
+theorem iinv_init2 (hn : (keys bs0).Nodup) {S : IState} (hI : IInv ts cal now bs0 st0 S) (j : Nat) :
+    IInv ts cal now bs0 st0 (init2 cal now S j) := by
+  unfold init2
+  split
+  · exact hI
+  · next b hb =>
+    split
+    · exact hI
+    · next hs =>
+      simp only [bne_iff_ne, ne_eq, Decidable.not_not] at hs
+      have hs' : b.steps ≠ 0 := by omega
+      obtain ⟨b0, h1, h2, h3⟩ := hI.touched j b hb hs'
+      split
+      · exact iinv_update hn hI hb { b with steps := 2 } rfl (by simp) ⟨b0, h1, h2, h3⟩ S.store (fun _ _ => rfl) S.ok
+      · split
+        · next d _ =>
+          exact iinv_update hn hI hb { b with dyn := d, persistent := false, steps := 2 } rfl (by simp)
+            ⟨b0, h1, h2, h3⟩ S.store (fun _ _ => rfl) false
+        · next d _ =>
+          exact iinv_update hn hI hb { b with dyn := d, steps := 2 } rfl (by simp)
+            ⟨b0, h1, h2, h3⟩ S.store (fun _ _ => rfl) S.ok
+
+theorem iinv_deliver (hn : (keys bs0).Nodup) (hf : ∀ b ∈ bs0, b.restored = false) {S : IState}
+    (hI : IInv ts cal now bs0 st0 S) (j : Nat) (v : Val) :
+    IInv ts cal now bs0 st0 (deliver ts cal now S j v) := by
+  have hI1 := iinv_init2 (cal := cal) (now := now) hn (iinv_init1 hn hf hI j) j
+  unfold deliver
+  simp only
+  generalize init2 cal now (init1 ts cal now S j) j = S1 at hI1
+  split
+  · exact iinv_ok S1 hI1 false
+  · next b hb =>
+    split
+    · exact iinv_ok S1 hI1 false
+    · next hg =>
+      simp only [Bool.or_eq_true, beq_iff_eq, not_or] at hg
+      obtain ⟨b0, h1, h2, h3⟩ := hI1.touched j b hb hg.2
+      split
+      · next d r _ =>
+        exact iinv_update hn hI1 hb { b with dyn := d } rfl hg.2 ⟨b0, h1, h2, h3⟩ _
+          (fun k hk => syncSave_ne S1.store { b with dyn := d } hk) S1.ok
+      · exact iinv_ok S1 hI1 false
+
+theorem iinv_emit (hn : (keys bs0).Nodup) (hf : ∀ b ∈ bs0, b.restored = false) {S : IState}
+    (hI : IInv ts cal now bs0 st0 S) (i : Nat) : IInv ts cal now bs0 st0 (emit ts cal now S i) := by
+  unfold emit
+  split
+  · exact hI
+  · split
+    · exact hI
+    · repeat' split
+      all_goals first | exact hI | exact iinv_ok S hI false | exact iinv_deliver hn hf hI _ _
+
+theorem iinv_turn1 (hn : (keys bs0).Nodup) (hf : ∀ b ∈ bs0, b.restored = false) {S : IState}
+    (hI : IInv ts cal now bs0 st0 S) (i : Nat) : IInv ts cal now bs0 st0 (turn1 ts cal now S i) := by
+  unfold turn1
+  split
+  · exact hI
+  · simp only
+    split
+    · exact iinv_emit hn hf (iinv_init1 hn hf hI i) i
+    · exact iinv_init1 hn hf hI i
+
+theorem iinv_turn2 (hn : (keys bs0).Nodup) (hf : ∀ b ∈ bs0, b.restored = false) {S : IState}
+    (hI : IInv ts cal now bs0 st0 S) (i : Nat) : IInv ts cal now bs0 st0 (turn2 ts cal now S i) := by
+  unfold turn2
+  split
+  · exact hI
+  · split
+    · exact iinv_init2 hn hI i
+    · simp only
+      split
+      · exact iinv_emit hn hf (iinv_init2 hn hI i) i
+      · exact iinv_init2 hn hI i
+
+theorem iinv_foldl (f : IState → Nat → IState)
+    (hfp : ∀ S i, IInv ts cal now bs0 st0 S → IInv ts cal now bs0 st0 (f S i))
+    (is : List Nat) {S : IState} (hI : IInv ts cal now bs0 st0 S) :
+    IInv ts cal now bs0 st0 (is.foldl f S) := by
+  induction is generalizing S with
+  | nil => exact hI
+  | cons a r ih => exact ih (hfp S a hI)
+
+theorem iinv_initial (hs : ∀ b ∈ bs0, b.steps = 0) (st0 : Storage) :
+    IInv ts cal now bs0 st0 { blocks := bs0, store := st0 } :=
+  ⟨rfl, fun _ _ hb _ => ⟨hb, rfl⟩, fun _ b hb hne => absurd (hs b (List.mem_of_getElem? hb)) hne⟩
+
+end Edzed.Persist
